@@ -6,7 +6,7 @@ from mir2smt.exec import OpaqueV, IntV, BoolV, AggV, EnumV, RefV, UNIT, Stop, mk
 from mir2smt import envlib as E
 from mir2smt.builtins import deref
 
-CRATES = ["ckb-constant", "ckb-occupied-capacity-core", "ckb-types", "ckb-shared"]
+CRATES = ["ckb-constant", "ckb-occupied-capacity-core", "ckb-types", "ckb-shared", "ckb-sync"]
 U64 = (1 << 64) - 1
 I63 = (1 << 63) - 1
 
@@ -229,7 +229,127 @@ def m3_header_view_codec(S):
     S.prove(ctx, ob, "to_vec_writes_fields_at_the_offsets_the_decoder_reads", [], bool(len(layouts) == 2 and all(lay_ok(l, t) for l, t in layouts)))
 
 
-OBLIGATIONS = [m1_skip_height, m2_ancestor_step, m3_header_view_codec]
+def locator_spec(n, one_day=8192):
+    """heights a locator built from a start at height n must contain (the documented schedule: the 10 most recent heights one by one,
+    then the step doubles after every entry; below twice the step: halve the height while it is above ONE_DAY and fewer than 52 entries, then
+    genesis) -- written from the RFC/comment, independent of the code's control flow"""
+    hs, step, idx = [], 1, n
+    while True:
+        hs.append(idx)
+        if len(hs) >= 10:
+            step *= 2
+        if idx < step * 2:
+            if len(hs) < 52 and idx > one_day:
+                idx //= 2
+                continue
+            if idx != 0:
+                hs.append(0)
+            return hs
+        idx -= step
+
+
+def m4_locator(S):
+    """ActiveChain::get_locator: every entry is the hash of `get_ancestor(previous entry, height)` -- i.e. an ancestor of the start block found by
+    the same ancestor lookup C17.m2 decides -- the first lookup starts from the start block itself at its own height, heights strictly decrease
+    following the locator schedule, the subtraction never underflows, and the list ends with the genesis hash; start heights 0..N
+    (N = 600 quick / 3000 thorough; above ONE_DAY_BLOCK_NUMBER the halving branch is outside the bound)"""
+    ob = "C17.m4"
+    N = 600 if getattr(S, "tier", "quick") == "quick" else 3000
+    f = [x for x in S.prog.funcs if x.kind == "fn" and x.short == "get_locator" and "sync/src/types/mod.rs" in x.name]
+    if len(f) != 1:
+        raise Inconclusive(f"get_locator: {len(f)} candidates")
+    ctx = S.ctx(unwind=80)
+    ctx.uninterpreted_unknown_calls = True
+    ctx.max_paths = 5000
+    ctx.prune_with_solver = True      # loop exits depend on the path condition (n - k >= 2*step): infeasible sides are pruned by the solver
+    n = ctx.int("start_number", "u64")
+    ctx.add_side(T.le(n.t, N))
+
+    def nm(ex, v):
+        v = deref(ex, v)
+        return getattr(v, "name", None) or type(v).__name__
+
+    def get_ancestor(ex, c, a, d):
+        k = len([e for e in ex.log if e[0] == "ancestor"])
+        ex.log.append(("ancestor", c, [nm(ex, a[1]), deref(ex, a[2]).t], list(ex.pc)))
+        return mk_option(True, OpaqueV(f"anc{k}", "HeaderIndexView"), d)
+    ctx.env = [
+        (E.rx(r"BlockNumberAndHash::number$"), lambda ex, c, a, d: n),
+        (E.rx(r"BlockNumberAndHash::hash$"), lambda ex, c, a, d: OpaqueV("start_hash", d)),
+        (E.rx(r"ActiveChain::get_ancestor$"), get_ancestor),
+        (E.rx(r"HeaderIndexView::hash$"), lambda ex, c, a, d: OpaqueV("hash_of." + nm(ex, a[0]), d)),
+        (E.rx(r"Consensus::genesis_hash$"), lambda ex, c, a, d: OpaqueV("genesis_hash", d)),
+        (E.rx(r"SyncShared::consensus$"), E.opaque_call()),
+        (E.rx(r"Byte32 as Clone>::clone$"), lambda ex, c, a, d: deref(ex, a[0])),
+    ]
+    ps = S.run(ctx, f[0], [ctx.ref_to(OpaqueV("chain", "ActiveChain")), OpaqueV("start", "BlockNumberAndHash")])
+    S.prove(ctx, ob, "no_panic_no_underflow", [], T.not_(cond_of(panics(ps))))
+    rs = returns(ps)
+    covered = T.or_(*[p.cond() for p in rs])
+    S.prove(ctx, ob, "every_start_height_in_the_bound_returns", [], covered)
+    from mir2smt.exec import ListV
+    bad_chain, bad_sched, bad_list = [], [], []
+    for p in rs:
+        anc = [e[2] for e in p.log if e[0] == "ancestor"]
+        # chaining: first from the start hash, then from the previous entry
+        for k, (base, idx) in enumerate(anc):
+            want = "start_hash" if k == 0 else f"hash_of.anc{k - 1}"
+            if base != want:
+                bad_chain.append(p.cond())
+        # returned list = hashes of the ancestors in order (+ genesis)
+        v = p.value
+        items = [getattr(x, "name", "?") for x in v.items] if isinstance(v, ListV) else None
+        if items is None:
+            bad_list.append(p.cond())
+            continue
+        exp = [f"hash_of.anc{k}" for k in range(len(anc))]
+        if items not in (exp, exp + ["genesis_hash"]):
+            bad_list.append(p.cond())
+        # schedule: under this path's condition the heights are exactly the specified ones for every n it covers
+        eqs = []
+        for nn in range(N + 1):
+            hs = locator_spec(nn)
+            looked = hs if hs[-1] != 0 or len(hs) == 1 or nn == 0 else hs[:-1]
+            # the last 0 is the appended genesis (not a lookup) unless the walk itself reached height 0
+            walk = locator_walk_heights(nn)
+            ok_shape = len(walk) == len(anc) and (items == exp + ["genesis_hash"]) == (walk[-1] != 0)
+            if ok_shape:
+                eqs.append(T.and_(T.eq(n.t, nn), *[T.eq(idx, h) for (_, idx), h in zip(anc, walk)]))
+            else:
+                eqs.append(T.and_(T.eq(n.t, nn), False))
+        bad_sched.append(T.and_(p.cond(), T.not_(T.or_(*eqs))))
+    S.prove(ctx, ob, "each_lookup_starts_from_the_previous_entry", [], T.not_(T.or_(*bad_chain)) if bad_chain else True)
+    S.prove(ctx, ob, "locator_is_the_ancestor_hashes_then_genesis", [], T.not_(T.or_(*bad_list)) if bad_list else True)
+    S.prove(ctx, ob, "heights_follow_the_locator_schedule", [], T.not_(T.or_(*bad_sched)), timeout_s=300)
+    S.witness(ctx, ob, "reach_doubling", [], T.and_(covered, T.gt(n.t, 40)))
+
+
+def locator_walk_heights(n, one_day=8192):
+    """heights actually looked up (the spec list without the appended genesis entry)"""
+    hs = locator_spec(n, one_day)
+    # locator_spec appends 0 for the genesis hash when the walk stopped above 0
+    walk, step, idx = [], 1, n
+    out = []
+    k = 0
+    # recompute the walk part only: all entries except a trailing appended genesis
+    full = hs
+    if len(full) >= 2 and full[-1] == 0 and full[-2] != 0 and not (full[-2] - 0 == 0):
+        # trailing 0 may be either a real lookup at height 0 or the appended genesis: decide by re-simulating
+        pass
+    hs2, step, idx = [], 1, n
+    while True:
+        hs2.append(idx)
+        if len(hs2) >= 10:
+            step *= 2
+        if idx < step * 2:
+            if len(hs2) < 52 and idx > one_day:
+                idx //= 2
+                continue
+            return hs2
+        idx -= step
+
+
+OBLIGATIONS = [m1_skip_height, m2_ancestor_step, m3_header_view_codec, m4_locator]
 
 ENGINE = "M"
 LEVEL = "other"
